@@ -3,8 +3,9 @@
    digest, per record at most one digest per format, and -- the core of the property -- for EVERY path and format what
    the flattened manifest holds is exactly the EARLIEST digest of that format, in generation order, that did not fail
    (none if there is none); flatten returns the source tree unchanged and performs no write in it.
-   PARTIAL: the verify -pl round trip is not in the model; it is checked by the oracle on the implementation. *)
-From MHL Require Import Model.Commands Proofs.BaseFacts Proofs.InfoFacts Proofs.VerifyFacts.
+   The verify -pl round trip (last sentence of the property) is proved end to end for a flat history: see
+   C18_seal_creates_flatten_verify_pl and C18_altered_tree_fails below. *)
+From MHL Require Import Model.Commands Gen.Generated Proofs.BaseFacts Proofs.TreeFacts Proofs.InfoFacts Proofs.VerifyFacts Proofs.FlatFacts Proofs.PackFacts Proofs.ShapeFacts.
 
 Theorem C18_flattened_records : forall gens, fl_inv (flatten_records gens).
 Proof. exact flatten_records_inv. Qed.
@@ -71,3 +72,75 @@ Theorem C18_verify_pl_reports : forall Hb matches C t g ip ifl,
   (forall p, In p (o_new o) <-> exists c, In (p, c) files /\ reference hs p = None).
 Proof. exact verify_pl_reports. Qed.
 Print Assumptions C18_verify_pl_reports.
+
+(* THE ROUND TRIP, END TO END (flat history = no nested child histories, no renames -- the property's scope).
+   Seal a tree that has no history (any formats, -n or not, any patterns), run `create` any number of times on the
+   untouched tree (any formats, -n or not), then `flatten`.  `verify -pl` of the unchanged tree against the manifest that
+   flatten wrote exits 0 -- for every tree, every matcher and every hash primitive.  Composes: the create/verify cycle
+   invariant of a flat history (C03), the shape of what create writes (a path's first non-failed digest is `original`,
+   folder records carry directory hashes only, the pattern list starts from the defaults: `shape`, kept by every run),
+   flatten = earliest non-failed digest per path and format (above), and the judging rule of verify -pl. *)
+Theorem C18_seal_creates_flatten_verify_pl : forall Hb matches C cdig ser kids h0 req0 nd0 ip ifl rs doc,
+  wf_tree C (Dir None kids) -> load C cdig (Dir None kids) = inl [h0] -> req0 <> [] -> Forall (fun x => fst x <> []) rs ->
+  let r0 := create_folder Hb matches C cdig ser (Dir None kids) req0 nd0 false ip ifl in
+  let r := run_creates Hb matches C cdig ser (fst r0) rs in
+  In ([], doc) (o_written (snd (flatten C cdig (fst r) [] []))) ->
+  o_outcome (snd (verify_pl Hb matches C (fst r) (Some doc) [] [])) = Exit 0.
+Proof. exact seal_creates_flatten_verify_pl. Qed.
+Print Assumptions C18_seal_creates_flatten_verify_pl.
+
+(* the same from any state of the cycle (`flat_state2`: the create/verify invariant plus the shape), and its second
+   half: a file the traversal reaches whose bytes were replaced -- in whatever tree the packing list is then verified
+   against, so other files may have changed, appeared or gone too -- gives exit 11 and the file is reported.  The
+   premise on the hash primitive is the usual one (no collision between the old and the new bytes). *)
+Theorem C18_unchanged_tree_passes : forall Hb matches C cdig n old kids doc,
+  flat_state2 Hb matches C cdig n old kids ->
+  verify_result Hb matches C cdig false (Dir (Some old) kids) [] [] = Some (mkVR 0 [] [] []) ->
+  In ([], doc) (o_written (snd (flatten C cdig (Dir (Some old) kids) [] []))) ->
+  o_outcome (snd (verify_pl Hb matches C (Dir (Some old) kids) (Some doc) [] [])) = Exit 0.
+Proof. exact flat_state_flatten_verify_pl. Qed.
+Print Assumptions C18_unchanged_tree_passes.
+Theorem C18_altered_tree_fails : forall Hb matches C cdig n old kids doc t' p c c',
+  flat_state2 Hb matches C cdig n old kids ->
+  verify_result Hb matches C cdig false (Dir (Some old) kids) [] [] = Some (mkVR 0 [] [] []) ->
+  In ([], doc) (o_written (snd (flatten C cdig (Dir (Some old) kids) [] []))) ->
+  In (p, c) (ev_files (events matches C (set_patterns (latest_patterns (loaded_gens C old)) [] (pattern_file_lines [])) [] (Dir (Some old) kids))) ->
+  In (p, c') (ev_files (events matches C (set_patterns (g_patterns doc) [] (pattern_file_lines [])) [] t')) ->
+  (forall f, digest_text Hb f c' <> digest_text Hb f c) ->
+  let o := snd (verify_pl Hb matches C t' (Some doc) [] []) in
+  o_outcome o = Exit 11 /\ In p (o_mismatch o).
+Proof. exact flat_state_flatten_verify_pl_altered. Qed.
+Print Assumptions C18_altered_tree_fails.
+(* the state is kept by every run of create on the untouched tree (so the two theorems above apply after any number of runs) *)
+Theorem C18_state_kept : forall Hb matches C cdig ser n old kids req no_dh, flat_state2 Hb matches C cdig n old kids -> req <> [] ->
+  let run := create_folder Hb matches C cdig ser (Dir (Some old) kids) req no_dh false [] [] in
+  o_outcome (snd run) = Exit 0 /\
+  exists old', fst run = Dir (Some old') kids /\ flat_state2 Hb matches C cdig (S n) old' kids /\
+    verify_result Hb matches C cdig false (fst run) [] [] = Some (mkVR 0 [] [] []).
+Proof. exact flat_cycle2. Qed.
+Print Assumptions C18_state_kept.
+(* the shape, spelled out *)
+Theorem C18_shape_means : forall gens, shape gens <->
+  (forall p x, find (fun x => path_eqb (r_path (fst x)) p && match e_action (snd x) with Some Failed => false | _ => true end) (scan gens) = Some x ->
+               is_original (snd x) = true) /\
+  (forall g r e, In g gens -> In r (g_records g) -> r_dir r = true -> In e (r_entries r) -> e_action e = None) /\
+  (latest_patterns gens = [] \/ exists s, latest_patterns gens = default_ignore ++ s).
+Proof. intros. reflexivity. Qed.
+
+(* non-vacuity: a concrete tree (a file, a sub-folder with a file), sealed with md5, one more run with sha1, flattened:
+   the manifest is written and verify -pl exits 0; with one file's bytes replaced it exits 11 *)
+Definition c18_kids : list (text * node unit) := [([97%N], @File unit [1%N; 2%N]); ([98%N], @Dir unit None [([99%N], @File unit [3%N])])].
+Definition c18_kids' : list (text * node unit) := [([97%N], @File unit [1%N; 9%N]); ([98%N], @Dir unit None [([99%N], @File unit [3%N])])].
+Definition c18_Hb (f : fmt) (b : bytes) : bytes := match f with Md5 => b | _ => 0%N :: b end.
+Definition c18_m (spec : list text) (s : text) : bool := false.
+Example C18_round_trip_example :
+  let r0 := create_folder c18_Hb c18_m unit (fun _ => []) (fun _ => tt) (Dir None c18_kids) [Md5] false false [] [] in
+  let r := run_creates c18_Hb c18_m unit (fun _ => []) (fun _ => tt) (fst r0) [([Sha1], false)] in
+  match o_written (snd (flatten unit (fun _ => []) (fst r) [] [])) with
+  | [([], doc)] =>
+      map (fun x => (r_path x, map e_fmt (r_entries x))) (g_records doc) = [([[98%N]; [99%N]], [Md5; Sha1]); ([[97%N]], [Md5; Sha1])] /\
+      o_outcome (snd (verify_pl c18_Hb c18_m unit (fst r) (Some doc) [] [])) = Exit 0 /\
+      o_outcome (snd (verify_pl c18_Hb c18_m unit (Dir None c18_kids') (Some doc) [] [])) = Exit 11
+  | _ => False
+  end.
+Proof. vm_compute. repeat split. Qed.
